@@ -20,6 +20,20 @@ fn main() {
     match suite {
         "types" => {}
         "bytes" => suite_bytes::run(&reg, &suite_bytes::Cfg { seed, thorough, only, scale }, &mut out),
+        "exec" => {
+            // lines on stdin: left-hand sides (anything after " => " is ignored)
+            let mut ar = arena::Arena::new(1);
+            let mut ar2 = arena::Arena::new(1);
+            let stdin = std::io::stdin();
+            let mut line = String::new();
+            while { line.clear(); std::io::BufRead::read_line(&mut stdin.lock(), &mut line).unwrap() > 0 } {
+                let lhs = line.trim_end().split(" => ").next().unwrap().to_string();
+                match lhs.split(' ').next().unwrap_or("") {
+                    "B" => suite_bytes::exec_line(&reg, &mut ar, &mut ar2, &lhs, &mut out),
+                    _ => {}
+                }
+            }
+        }
         s => panic!("unknown suite {s}"),
     }
     out.flush().unwrap();
